@@ -92,6 +92,10 @@ def ops_family(seed, tier, ws):
                               ('charleft_' + op, "('c' %s a)" % op, 'byte a, byte b', 'bb'), ('negleft_' + op, '((0 - 1) %s a)' % op, 'int a, int b', 'ii'),
                               ('zeroleft_' + op, '(0 %s a)' % op, 'int a, int b', 'ii'), ('maxright_' + op, '(a %s 32767)' % op, 'int a, int b', 'ii')):
             progs.append(('cmp_' + nm, pt, '', e, kd, POS_TEMPLATE))
+    # a byte against literals outside 0..255 whose low byte may equal it
+    for nm, e in (('eq511', '(a == 511)'), ('ne_m1', '(a != (0 - 1))'), ('eq256', '(a == 256)'), ('eq256_left', '(256 == a)'), ('eq255', '(a == 255)'), ('ne_m256', '(a != (0 - 256))'),
+                  ('eq_sum', '(a == b + 256)'), ('lt_m1', '(a < (0 - 1))')):
+        progs.append(('cmp_byte_' + nm, 'byte a, byte b', '', e, 'bb', POS_TEMPLATE))
     # comparisons whose operand is itself arithmetic that may wrap, or arithmetic over bytes that leaves the byte range
     for op in cmpops:
         progs.append(('cmp_diff0_' + op, 'int a, int b', '', '((a - b) %s 0)' % op, 'ii', POS_TEMPLATE))
@@ -121,7 +125,7 @@ def ops_family(seed, tier, ws):
     for w in ws:
         n = {'quick': 7, 'thorough': 16}[tier] if w == 2 else {'quick': 4, 'thorough': 9}[tier]
         ints = grid_ints(w, n, rnd)
-        bytes_ = [0, 1, 127, 128, 255, 2, 10, 200, 48, 254][:max(3, n // 2)]
+        bytes_ = [0, 255, 1, 128, 127, 2, 10, 200, 48, 254][:max(5, n // 2)]
         for name, ptypes, pre, expr, kinds, tmpl in progs:
             key = 'B' if tmpl is POS_TEMPLATE else 'E'
             src = tmpl % {'ptypes': ptypes, 'pre': pre, key: expr, 'hdr': hdrs.get(name, '')}
